@@ -116,6 +116,8 @@ impl Listing {
         let mut old_end: u16 = LineNumber::max_value() + 1;
         let mut new_num = new_start;
         for (&ln, _) in self.source.iter() {
+            #[cfg(feature = "verif")]
+            crate::verif::tick(crate::verif::SITE_RENUM);
             let ln = match ln {
                 Some(ln) => ln,
                 None => return Err(error!(InternalError)),
